@@ -353,7 +353,13 @@ def run_symbolic(h, mods, cfg, timeout_ms=20000, max_paths=64, label=""):
                 rec = Record(kind="fact", name=label + "/" + ob.name, path=pid, verdict="unsat" if ob.got else "sat",
                              t=0.0, size=1, trivial=False, phase="executed-on-feasible-path", detail=ob.meta.get("detail"))
                 if not ob.got:
-                    vm, dtm, mm, _ = solve(list(ex.assume) + list(ex.low.side) + ex.path_constraints(), timeout_ms, want_model=True)
+                    # the fact failed for every input on this path: prefer a generic witness (inputs non-zero and pairwise distinct)
+                    base_f = list(ex.assume) + list(ex.low.side) + ex.path_constraints()
+                    zs = [z3.Real(nm) for nm in names]
+                    gen = [zv != 0 for zv in zs] + ([z3.Distinct(*zs)] if len(zs) > 1 else [])
+                    vm, dtm, mm, _ = solve(base_f + gen, min(timeout_ms, 5000), want_model=True)
+                    if mm is None:
+                        vm, dtm, mm, _ = solve(base_f, timeout_ms, want_model=True)
                     mv = model_values(mm, names + ["EPS"]) if mm is not None else {}
                     rec["model"] = {k: str(val) for k, val in mv.items()}
                     rec["model_float"] = {k: float(val) for k, val in mv.items()}
